@@ -432,6 +432,13 @@ fn j2oas_schema_object(
         None => None,
     };
 
+    // OpenAPI v3.0.x has no `const` keyword; express it as a one-value `enum`
+    // rather than dropping the constraint.
+    let enum_values = match (&obj.enum_values, &obj.const_value) {
+        (None, Some(value)) => Some(vec![value.clone()]),
+        (values, _) => values.clone(),
+    };
+
     let kind = match (ty, &obj.subschemas) {
         (Some(schemars::schema::InstanceType::Null), None) => {
             openapiv3::SchemaKind::Type(openapiv3::Type::String(
@@ -442,8 +449,7 @@ fn j2oas_schema_object(
             ))
         }
         (Some(schemars::schema::InstanceType::Boolean), None) => {
-            let enumeration = obj
-                .enum_values
+            let enumeration = enum_values
                 .as_ref()
                 .map(|values| {
                     values
@@ -469,13 +475,13 @@ fn j2oas_schema_object(
             j2oas_array(&obj.array)
         }
         (Some(schemars::schema::InstanceType::Number), None) => {
-            j2oas_number(&obj.format, &obj.number, &obj.enum_values)
+            j2oas_number(&obj.format, &obj.number, &enum_values)
         }
         (Some(schemars::schema::InstanceType::String), None) => {
-            j2oas_string(&obj.format, &obj.string, &obj.enum_values)
+            j2oas_string(&obj.format, &obj.string, &enum_values)
         }
         (Some(schemars::schema::InstanceType::Integer), None) => {
-            j2oas_integer(&obj.format, &obj.number, &obj.enum_values)
+            j2oas_integer(&obj.format, &obj.number, &enum_values)
         }
         (None, Some(subschema)) => j2oas_subschemas(subschema),
         (None, None) => {
